@@ -10,6 +10,8 @@ from ..core import AnalysisError, Ctx, norm
 from ..pyfacts import dotted, calls_in
 from .c10 import is_wrapped
 
+from ..pai import as_sstr as pai_as
+
 META = {
     "explanation": "Necessary conditions of idempotence and determinism, decided on the vocabulary: (N1) the abstract round trip of C01 is applied twice - for every (type, keyword, value class, quote) the value read back from the printed text is printed again and the second template must be identical to the first (enum words are upper-cased once, numbers, strings, bindings, lists unchanged); (N2) the expression normal form is a fixed point: every builder result that is enclosed by its own parentheses is returned unchanged by expression(), and NOT / arithmetic forms re-wrapped once give the same string when re-read; (N3) escape_quotes, evaluated on symbolic quoted strings, is the identity without interior quotes, escapes an interior quote exactly once and is idempotent on its own result; (N4) determinism: no iteration over sets, no hash/id/random/time/environment reads on the load and print call graphs.",
     "level_text": "Idempotence is decided per cell of the finite (type x keyword x value class x quote) table and per expression builder - every document is a composition of these cells. Byte identity of whole documents under all option sets is not decided (needs the documents); these are the conditions whose violation breaks it.",
@@ -122,6 +124,29 @@ def run(ctx: Ctx) -> None:
         ctx.check(once == want, "N3", f"an interior quote is escaped once (quote {q})", repo.loc("quoter", eq), want.describe(), f"escape_quotes({inner.describe()}) = {once!r}, expected {want.describe()!r}")
         twice = esc(once) if isinstance(once, (SStr, str)) else None
         ctx.check(twice == once, "N3", f"an already escaped quote gains nothing on a second pass (quote {q})", repo.loc("quoter", eq), "idempotent", f"escape_quotes applied to its own result {once!r} gives {twice!r}: escaped quotes gain a backslash on every pass")
+    # ---- N5 ------------------------------------------------------------------------------------------
+    ctx.rule("N5", "a line break inside a quoted value is written as it is, whatever newlinechar is and whichever line break the value holds (LF, or the CR LF a previous pass with newlinechar CR LF put between lines): formatting the formatted text again cannot grow or change it", 4)
+    from .. import layout as _layout
+
+    L = _layout.Layout(e)
+    locp = repo.loc("pprint", repo.func("pprint.PrettyPrinter.pprint"))
+    nonl = frozenset("\n\r\"'")
+    for nl in ("\n", "\r\n"):
+        for inner in ("\n", "\r\n"):
+            def multi(inner=inner):
+                v = SStr([Atom("l1", nonempty=True, excludes=nonl, free=True), inner, Atom("l2", nonempty=True, excludes=nonl, free=True)])
+                return _layout.cdict([("__type__", "layer"), ("name", _layout.word("n")), ("data", v)])
+
+            outs = L.pprint_text(multi, lambda nl=nl: L.sym_options(end_comment=False, indent=2, spacer=" ", newlinechar=nl), fork=False)
+            if len(outs) != 1:
+                raise AnalysisError("pprint forks on a multi-line value")
+            if outs[0][1] != "return":
+                ctx.finding("N5", f"newlinechar {nl!r}, value holding {inner!r}", locp, f"pprint raises {outs[0][2]}")
+                continue
+            ps = list(pai_as(outs[0][2]).pieces)
+            between = [ps[i + 1] for i in range(len(ps) - 2) if isinstance(ps[i], Atom) and ps[i].name == "l1" and isinstance(ps[i + 2], Atom) and ps[i + 2].name == "l2"]
+            ctx.check(between == [inner], "N5", f"newlinechar {nl!r}, value holding {inner!r}", locp, "line break inside the value unchanged", f"with newlinechar {nl!r} a value holding the line break {inner!r} is written with {between!r} in its place: each formatting pass changes the value again")
+
     # ---- N4 ------------------------------------------------------------------------------------------
     ctx.rule("N4", "no nondeterminism source on the load / print call graphs (set iteration, hash, id, random, time, environment)", 30)
     reach = facts.reachable(["utils.loads", "utils.dumps", "utils.open", "utils.load", "utils.dump", "utils.save", "pprint.PrettyPrinter.pprint", "transformer.MapfileToDict.transform"])
